@@ -514,6 +514,13 @@ class Evaluator:
                 else:
                     yield st2, opaque("unary", _key(v))
             return
+        if isinstance(e, ast.NamedExpr):
+            for st2, v in self.expr(e.value, st, fn, depth):
+                st3 = st2.copy()
+                if isinstance(e.target, ast.Name):
+                    st3.env[e.target.id] = v
+                yield st3, v
+            return
         if isinstance(e, ast.BinOp):
             for st2, l in self.expr(e.left, st, fn, depth):
                 for st3, r in self.expr(e.right, st2, fn, depth):
